@@ -182,6 +182,8 @@ pub fn gen_mux(seed: u64, tier: Tier, focus: Focus, label: &str) -> MuxPlan {
         h2_clients,
         sndbufs: if rng.below(3) == 0 { Some(vec![0, 4608, 9216, 32768]) } else { None },
         settle_ns: 0,
+        soft_stop_at_ns: None,
+        h2_deadline_secs: None,
     }
 }
 
@@ -202,10 +204,7 @@ pub fn trigger(p: &MuxPlan, id: u64) -> &'static str {
         }
     }
     if let Some(s) = sibling { return s; }
-    // an H2 request that ends with an empty DATA frame makes sozu issue a zero-length write toward the
-    // H1 backend; after a partial write that clears the backend's WRITABLE event for good, and the
-    // next stream that reuses the backend connection stalls (recorded finding)
-    if p.h2_clients.iter().any(|c| c.requests().iter().any(|r| r.body.len > 0 && r.body.end == EndMode::EmptyData)) { return "h2_request_ending_in_empty_data_to_h1_backend"; }
+    // (an H2 request ending in an empty DATA frame toward an H1 backend used to be a trigger: fixed in /repo)
     "none"
 }
 
